@@ -80,7 +80,7 @@ func (p *Parser) deconstructValue(rv reflect.Value, numBuffers *int, undo *undoL
 		sk := rv.Type().Elem().Kind()
 
 		switch sk {
-		case reflect.Ptr, reflect.Interface, reflect.Struct, reflect.Slice:
+		case reflect.Ptr, reflect.Interface, reflect.Struct, reflect.Slice, reflect.Map:
 			sl := rv.Len()
 			for i := 0; i < sl; i++ {
 				el := rv.Index(i)
@@ -210,6 +210,12 @@ func (p *Parser) deconstructStruct(rv reflect.Value, numBuffers *int, undo *undo
 			continue
 		}
 
+		// A binary held by a field of type `any` is replaced in that field:
+		// hand over the field itself, not the (non-settable) value in it.
+		if k == reflect.Interface && rv.Field(i).CanSet() {
+			fv = rv.Field(i)
+		}
+
 		b, err := p.deconstructValue(fv, numBuffers, undo)
 		if err != nil {
 			return nil, err
@@ -259,6 +265,21 @@ func (p *Parser) deconstructMap(rv reflect.Value, numBuffers *int, undo *undoLog
 				return nil, err
 			}
 			buffers = append(buffers, buf)
+			continue
+		}
+
+		// A struct stored in a map by value cannot be changed in place:
+		// work on a copy and store the copy (the original is put back afterwards).
+		if k == reflect.Struct && original.Kind() == reflect.Struct && !mv.CanSet() && hasBinary(mv) {
+			ne := reflect.New(mv.Type()).Elem()
+			ne.Set(mv)
+			b, err := p.deconstructValue(ne, numBuffers, undo)
+			if err != nil {
+				return nil, err
+			}
+			undo.add(func() { rv.SetMapIndex(mk, original) })
+			rv.SetMapIndex(mk, ne)
+			buffers = append(buffers, b...)
 			continue
 		}
 
@@ -355,7 +376,7 @@ func (r *reconstructor) reconstructValue(rv reflect.Value) error {
 		sk := rv.Type().Elem().Kind()
 
 		switch sk {
-		case reflect.Ptr, reflect.Interface, reflect.Struct, reflect.Slice:
+		case reflect.Ptr, reflect.Interface, reflect.Struct, reflect.Slice, reflect.Map:
 			sl := rv.Len()
 			for i := 0; i < sl; i++ {
 				el := rv.Index(i)
@@ -494,6 +515,19 @@ func (r *reconstructor) reconstructStruct(rv reflect.Value) error {
 			continue
 		}
 
+		// A field of type `any` that holds a placeholder gets the attachment it stands for.
+		if k == reflect.Interface && rv.Field(i).CanSet() {
+			n, ok := placeholderNum(fv)
+			if ok {
+				n++
+				if n < 1 || n >= len(r.buffers) {
+					return errInvalidPlaceholderNumValue
+				}
+				rv.Field(i).Set(reflect.ValueOf(r.buffers[n]))
+				continue
+			}
+		}
+
 		err := r.reconstructValue(fv)
 		if err != nil {
 			return err
@@ -610,6 +644,24 @@ func (r *reconstructor) reconstructMap(rv reflect.Value) error {
 				return err
 			}
 
+		case reflect.Struct:
+			// A struct stored in a map by value cannot be changed in place: work on a copy and store the copy.
+			if !mv.CanSet() && original.Kind() == reflect.Struct {
+				ne := reflect.New(mv.Type()).Elem()
+				ne.Set(mv)
+				err := r.reconstructValue(ne)
+				if err != nil {
+					return err
+				}
+				rv.SetMapIndex(mk, ne)
+				continue
+			}
+
+			err := r.reconstructValue(mv)
+			if err != nil {
+				return err
+			}
+
 		default:
 			err := r.reconstructValue(mv)
 			if err != nil {
@@ -640,7 +692,7 @@ func hasBinary(values ...reflect.Value) bool {
 			sk := rv.Type().Elem().Kind()
 
 			switch sk {
-			case reflect.Ptr, reflect.Interface, reflect.Struct, reflect.Slice:
+			case reflect.Ptr, reflect.Interface, reflect.Struct, reflect.Slice, reflect.Map:
 				l := rv.Len()
 				for i := 0; i < l; i++ {
 					val := rv.Index(i)
